@@ -42,7 +42,7 @@ ShapesA(f) ==
 DocsA(n) == UNION {{D(f, b, 0, 0) : b \in {x \in SeqsUpTo(ShapesA(f), n) : ListOK(x)}} : f \in Fmts}
 
 \* ---- family B: one paragraph, every arrangement of children and atoms -----
-AtomSeqs(f, ma)  == SeqsUpTo(Atoms(f), ma)
+AtomSeqs(f, ma)  == SeqsUpTo(InlineAtoms(f), ma)
 Children(f, ma)  == {R(w, a) : w \in Wrappers(f), a \in AtomSeqs(f, ma)}
 DocsB(mc, ma) == UNION {{D(f, <<P(ch)>>, 0, 0) : ch \in {x \in SeqsUpTo(Children(f, ma), mc) : NTok(P(x)) >= 1}} : f \in Fmts}
 
